@@ -764,41 +764,113 @@ func (x *castX) branch(body []ast.Stmt) string {
 				}
 			}
 		}
-	case 3:
-		// v, err := strconv.ParseX(val, …); if err == nil { return e, nil }; fail
-		as, ok1 := body[0].(*ast.AssignStmt)
-		ifs, ok2 := body[1].(*ast.IfStmt)
-		s, ok3 := x.failStmt(body[2])
-		if ok1 && ok2 && ok3 && len(as.Lhs) == 2 && len(as.Rhs) == 1 && x.p.text(as.Lhs[0]) == "v" && x.p.text(as.Lhs[1]) == "err" &&
-			ifs.Init == nil && ifs.Else == nil && x.p.text(ifs.Cond) == "err == nil" && len(ifs.Body.List) == 1 {
-			if call, ok := as.Rhs[0].(*ast.CallExpr); ok && len(call.Args) >= 2 && x.p.text(call.Args[0]) == "val" {
-				fn := x.p.text(call.Fun)
-				var pf string
-				switch {
-				case (fn == "strconv.ParseInt" || fn == "strconv.ParseUint") && len(call.Args) == 3:
-					b, okb := x.constInt(call.Args[1])
-					bits, okbits := x.constInt(call.Args[2])
-					if okb && okbits {
-						k := ".parseInt"
-						if fn == "strconv.ParseUint" {
-							k = ".parseUint"
-						}
-						pf = fmt.Sprintf("(%s %s %s)", k, b, bits)
+	}
+	// parse-then-convert, in its equivalent spellings (the two locals may have any name):
+	//   v, err := P(val, …) ; if err == nil { return e(v), nil } ; fail
+	//   v, err := P(val, …) ; if err != nil { fail } ; return e(v), nil
+	//   if v, err := P(val, …); err == nil { return e(v), nil } ; fail
+	// where P is strconv.ParseInt / ParseUint / ParseFloat or a one-expression helper wrapping one of them
+	{
+		var as *ast.AssignStmt
+		var ifs *ast.IfStmt
+		var rest []ast.Stmt
+		switch {
+		case len(body) == 3:
+			as, _ = body[0].(*ast.AssignStmt)
+			ifs, _ = body[1].(*ast.IfStmt)
+			rest = body[2:]
+			if ifs != nil && ifs.Init != nil {
+				ifs = nil
+			}
+		case len(body) == 2:
+			if i0, ok := body[0].(*ast.IfStmt); ok && i0.Init != nil {
+				as, _ = i0.Init.(*ast.AssignStmt)
+				ifs = i0
+				rest = body[1:]
+			}
+		}
+		if as != nil && ifs != nil && as.Tok == token.DEFINE && len(as.Lhs) == 2 && len(as.Rhs) == 1 && ifs.Else == nil && len(ifs.Body.List) == 1 {
+			vname, ename := x.p.text(as.Lhs[0]), x.p.text(as.Lhs[1])
+			if call, ok := as.Rhs[0].(*ast.CallExpr); ok {
+				if pf, ok := x.parseCall(call); ok {
+					cond := x.p.text(ifs.Cond)
+					old := x.binds
+					x.binds = map[string]string{vname: ".parsed"}
+					var e, sent string
+					okE, okS := false, false
+					switch cond {
+					case ename + " == nil":
+						e, okE = x.okStmt(ifs.Body.List[0])
+						sent, okS = x.failStmt(rest[0])
+					case ename + " != nil":
+						sent, okS = x.failStmt(ifs.Body.List[0])
+						e, okE = x.okStmt(rest[0])
 					}
-				case fn == "strconv.ParseFloat" && len(call.Args) == 2:
-					if bits, ok := x.constInt(call.Args[1]); ok {
-						pf = fmt.Sprintf("(.parseFloat %s)", bits)
-					}
-				}
-				if pf != "" {
-					if e, ok := x.okStmt(ifs.Body.List[0]); ok && e != "NIL" {
-						return fmt.Sprintf("(.parse %s %s %s)", pf, e, lstr(s))
+					x.binds = old
+					if okE && okS && e != "NIL" {
+						return fmt.Sprintf("(.parse %s %s %s)", pf, e, lstr(sent))
 					}
 				}
 			}
 		}
 	}
 	return unknown()
+}
+
+// parseCall recognises strconv.ParseInt/ParseUint(val, base, bits) and strconv.ParseFloat(val, bits), directly
+// or through a one-expression helper of the package that only forwards its parameters.
+func (x *castX) parseCall(call *ast.CallExpr) (string, bool) {
+	fn := x.p.text(call.Fun)
+	args := call.Args
+	if fd, body := x.helper(call.Fun); fd != nil {
+		inner, ok := body.(*ast.CallExpr)
+		if !ok {
+			return "", false
+		}
+		ps := paramNames(fd)
+		if len(ps) != len(call.Args) {
+			return "", false
+		}
+		var mapped []ast.Expr
+		for _, a := range inner.Args {
+			id, ok := ast.Unparen(a).(*ast.Ident)
+			if !ok {
+				mapped = append(mapped, a) // a constant of the helper itself
+				continue
+			}
+			found := false
+			for i, pn := range ps {
+				if pn == id.Name {
+					mapped = append(mapped, call.Args[i])
+					found = true
+				}
+			}
+			if !found {
+				return "", false
+			}
+		}
+		fn, args = x.p.text(inner.Fun), mapped
+	}
+	if len(args) < 2 || x.p.text(args[0]) != "val" {
+		return "", false
+	}
+	switch {
+	case (fn == "strconv.ParseInt" || fn == "strconv.ParseUint") && len(args) == 3:
+		b, okb := x.constInt(args[1])
+		bits, okbits := x.constInt(args[2])
+		if okb && okbits {
+			k := ".parseInt"
+			if fn == "strconv.ParseUint" {
+				k = ".parseUint"
+			}
+			return fmt.Sprintf("(%s %s %s)", k, b, bits), true
+		}
+	case fn == "strconv.ParseFloat" && len(args) == 2:
+		if bits, ok := x.constInt(args[1]); ok {
+			return fmt.Sprintf("(.parseFloat %s)", bits), true
+		}
+	}
+	return "", false
 }
 
 func (x *castX) casters() []string {
